@@ -182,7 +182,7 @@ func (e *Exec) do(ws []string) string {
 		if err := e.W.Add(s); err != nil {
 			return "err"
 		}
-		if s.Size != c.Size || s.Mime != c.Mime || s.FSize != c.FSize || s.Whole != c.Whole || s.ImgW != c.ImgW || s.ImgH != c.ImgH {
+		if s.Size != c.Size || s.Mime != c.Mime || s.FSize != c.FSize || s.Whole != c.Whole || s.ImgW != c.ImgW || s.ImgH != c.ImgH || s.Drop != c.Drop {
 			return "mismatch"
 		}
 		return "ok"
@@ -353,6 +353,27 @@ func (e *Exec) do(ws []string) string {
 			if strings.Contains(rerr.Error(), "still needed as dependencies") {
 				return "needed"
 			}
+			return "err"
+		}
+		return "ok"
+	case "frestart":
+		// a start (index.New + KeepInMemory over the same KV) during which one prefix scan meets a
+		// transient read fault: it must fail (the running index then stays) or load the same state
+		if len(ws) != 3 {
+			return "bad-op"
+		}
+		prefix, ok := map[string]string{"meta": "meta:", "claim": "claim|", "deleted": "deleted|", "missing": "missing|"}[ws[1]]
+		k, ok2 := atoiStrict(ws[2])
+		if !ok || !ok2 {
+			return "bad-op"
+		}
+		e.Ix.VerifAwaitReindex()
+		oldIx, oldC := e.Ix, e.Corpus
+		e.fkv.armIter(prefix, k)
+		err := e.newIndex()
+		e.fkv.disarmIter()
+		if err != nil {
+			e.Ix, e.Corpus = oldIx, oldC
 			return "err"
 		}
 		return "ok"
@@ -544,14 +565,34 @@ func initRev() {
 
 func attrTok(s string) string {
 	initRev()
+	if sfx, ok := strings.CutPrefix(s, "camliPath:"); ok {
+		if n, ok := longRun(sfx, 'y'); ok {
+			return "p" + strconv.Itoa(n)
+		}
+	}
 	if t, ok := revAttr[s]; ok {
 		return t
 	}
 	return "?" + hexTok(s)
 }
 
+func longRun(s string, c byte) (int, bool) {
+	if len(s) < 64 {
+		return 0, false
+	}
+	for i := 0; i < len(s); i++ {
+		if s[i] != c {
+			return 0, false
+		}
+	}
+	return LongBase + len(s), true
+}
+
 func suffixTok(s string) string {
 	initRev()
+	if n, ok := longRun(s, 'y'); ok {
+		return strconv.Itoa(n)
+	}
 	if t, ok := revAttr["camliPath:"+s]; ok {
 		return t[1:]
 	}
@@ -565,6 +606,12 @@ func (e *Exec) valTok(s string) string {
 	}
 	if t, ok := revVal[s]; ok {
 		return t
+	}
+	if n, ok := longRun(s, 'x'); ok {
+		return "s" + strconv.Itoa(n)
+	}
+	if len(s) > 40 {
+		return fmt.Sprintf("?long%d", len(s))
 	}
 	return "?" + hexTok(s)
 }
